@@ -291,6 +291,7 @@ func (c *Collection) Pull(ctx context.Context, opts ...ReadOption) <-chan *Colle
 					return
 				case send <- change:
 				}
+				verifAt("fwd.seed", send)
 			}
 		}
 		verifAt("fwd.seeded", send)
